@@ -62,6 +62,15 @@ CLAIMED = {
         note="Trusted: Coq kernel, translator, harness; hand transcription of merge/write_config/close_shard (pinned + compared after every session); pydantic JSON round trip; shard writers; digest = write event.",
         technique="Coq proof (induction over the merge recursion: exactness, footprint, preservation) + AST-pinned transcription + differential histories with an exactness oracle",
         design="7/C04"),
+    "C05": dict(
+        text="Coq theorems about an abstract model of Dataset.check (digest of each list file against its parent's record, recursion into the children named by the file on disk, "
+             "then every shard the iterator finds), shape pinned statement by statement against the source: a committed tree passes; and for ANY file system fs', if the check passes then every "
+             "reachable directory holds exactly the committed list document and every listed shard has the committed digest — so every alteration, truncation, extension, deletion, swap or rollback "
+             "of a reachable file is detected (hypothesis: injective digests). Tie: real check() on every tamper kind x every reachable list/shard/description file of generated committed datasets "
+             "(nested, multi-split, 1..13 algorithms), and on the untouched datasets.",
+        note="Trusted: Coq kernel, translator (shape pin), harness; collision-free digests; C16 and C04 as given; pydantic parsing of list files.",
+        technique="Coq proof (induction over the list tree, any adversarial file system) + AST-pinned shape + exhaustive per-file tamper injection on the implementation",
+        design="7/C05"),
     "C08": dict(
         text="Coq theorem: the merge ending every session keeps every shard entry of every list and every shard file, and touches no list outside the merged split (corollary of merge_spec); "
              "the generated switch shows the over-strict assertion is gone and the formerly failing reuse histories complete with exactly old+new examples (vm_compute instance). "
